@@ -33,7 +33,14 @@ func runC07(w *World, r *Report, tier string) {
 	r.Anchor("xmpp.(*Router).route")
 	lib := w.LibFuncs()
 
-	isMapLoadVal := func(v ssa.Value) bool { f, _ := loadedField(v); return f == fMap }
+	// (the table may reach a function literal as the argument of the helper that runs it under the lock)
+	isMapLoadVal := func(v ssa.Value) bool {
+		if f, _ := loadedField(v); f == fMap {
+			return true
+		}
+		f, _ := loadedField(origin(v))
+		return f == fMap
+	}
 
 	// map accesses in the whole module
 	type macc struct {
@@ -230,8 +237,13 @@ func runC07(w *World, r *Report, tier string) {
 					return false
 				}
 				for _, a := range accs {
-					if a.kind == "delete" && a.fn == callee {
-						return true
+					if a.kind != "delete" {
+						continue
+					}
+					for _, hf := range withHelpers(callee) { // the delete may sit in a literal run under a lock helper
+						if a.fn == hf {
+							return true
+						}
 					}
 				}
 				return false
@@ -298,6 +310,7 @@ func runC07(w *World, r *Report, tier string) {
 		if okV == nil {
 			r.Undecided("R4", "xmpp.(*Router).route#claimed-path", w.ipos(lk), "the lookup is not a comma-ok lookup")
 		} else {
+			chOnPath := map[ssa.Instruction]bool{}
 			err := walkPaths(after(lk), nil, func(b *ssa.BasicBlock, succ int) bool {
 				c, truth, ok := edgeAssertion(b, succ)
 				if ok && (c == okV || rvLast(c) == okV) {
@@ -320,6 +333,17 @@ func runC07(w *World, r *Report, tier string) {
 				if _, ok := path[len(path)-1].(*ssa.Return); !ok || end == endCycle {
 					bad = "the claimed path does not end in a return"
 				}
+				// the channel sent on, as this path determines it (the claimed entry may travel through a variable a
+				// function literal assigns)
+				forPath(path, func(i int, in ssa.Instruction) {
+					if s, ok := in.(*ssa.Send); ok && isSendRes(in) {
+						if _, base := loadedField(chanOrigin(s.Chan)); base != nil {
+							if ex, ok := resolveOn(base, i, path).(*ssa.Extract); ok && ex.Tuple == ssa.Value(lk) && ex.Index == 0 {
+								chOnPath[in] = true
+							}
+						}
+					}
+				})
 			})
 			if err != nil {
 				r.Undecided("R4", "xmpp.(*Router).route#claimed-path", w.ipos(lk), err.Error())
@@ -338,6 +362,9 @@ func runC07(w *World, r *Report, tier string) {
 					_, base := loadedField(chanOrigin(s.Chan))
 					okCh := false
 					if ex, ok := originNN(base).(*ssa.Extract); ok && ex.Tuple == ssa.Value(lk) && ex.Index == 0 {
+						okCh = true
+					}
+					if chOnPath[in] {
 						okCh = true
 					}
 					r.Check(okVal && okCh, "R4", "xmpp.(*Router).route#delivered-value", w.ipos(in), "the value delivered is not the routed IQ, or the channel is not the claimed entry's", "sends *iq on the claimed entry's channel")
